@@ -8,7 +8,7 @@ import coregen as cg
 import stargen as sg
 
 PROP = 'C13'
-LEAN_TARGETS = ['MorphKgc.Props.C13', 'MorphKgc.Props.C13Now']
+LEAN_TARGETS = ['MorphKgc.Props.C13', 'MorphKgc.Props.C13Now', 'MorphKgc.Props.C13Fix']
 GEN_KEYS = ['star', 'escape']
 M = 'MorphKgc.Props.C13'
 THEOREMS = [{'name': f'Props.C13.{n}', 'module': M} for n in [
@@ -25,6 +25,7 @@ THEOREMS = [{'name': f'Props.C13.{n}', 'module': M} for n in [
     {'name': 'Model.Star.evalStar_relabel', 'module': 'MorphKgc.Lemmas.StarRelabel'}]
 # hypothesis-free theorems of the repaired shapes the translator reads from /repo now (Props/C13Now.lean)
 THEOREMS += [{'name': f'Props.C13.{n}', 'module': 'MorphKgc.Props.C13Now'} for n in ['C13_current_all_const', 'C13_F1_current']]
+THEOREMS += [{'name': f'Props.C13Fix.{n}', 'module': 'MorphKgc.Props.C13Fix'} for n in ['mem_step', 'C13_expand_measure', 'settled_fixpoint', 'C13_expand_terminates', 'C13_expand_result', 'C13_normalizeDocStar_terminates', 'C13_cyclic_outside_hypotheses', 'C13_cyclic_grows', 'C13_cyclic_no_fixpoint']]
 RULE = ('abstract RML-star documents (1-3 elementary triples maps with 0-3 predicate-object maps, classes, graph maps; 1-3 quoting maps: quoted '
         'subject, quoted object, both; with 0, 1 or 2 join conditions; quoting depth up to 3; asserted / non-asserted / untyped maps) x CSV '
         'tables of 0-6 rows with duplicate and NULL join keys and NULLs in every column, plus 12 fixed documents covering each nesting '
